@@ -232,6 +232,12 @@ class Exec(StmtMixin, CallMixin):
         raise Unsupported("attribute %s on %r (line %d)" % (a, type(base), n.lineno))
 
     def obj_attr(self, base, a, st, n):
+        # a method of the class the verified function belongs to: self.other_method
+        if base.name == "self" and self.f is not None and self.f.cls is not None:
+            for m in self.f.cls.body:
+                if isinstance(m, ast.FunctionDef) and m.name == a:
+                    qual = ".".join(self.f.qual.split(".")[:-1] + [a])
+                    return SFunc(target=qual, name=a)
         return NotImplemented
 
     def e_Tuple(self, n, st):
